@@ -291,6 +291,25 @@ pub fn diff_case_pid(pid: &str, case: &Case, rep: &mut Report, origin: &str, wan
                 rep.violation(format!("{pid}/reference/post-state/{}/{fork}", Plainish::kind(&d)), format!("{origin}: reference vs revm: {d}"), cj());
                 return false;
             }
+            // lock-step: every dispatched instruction of the real interpreter against the reference
+            // (catches divergences that a later exceptional halt would mask)
+            match crate::wrun::trace_real(case) {
+                Err(p) => {
+                    report_panic(rep, pid, &p, cj());
+                    return false;
+                }
+                Ok(xt) => {
+                    rep.add("lockstep_instructions_compared", rr.trace.len().min(xt.len()) as u64);
+                    rep.count("lockstep_traces_compared");
+                    if let Some((i, field, a, b)) = crate::wrun::trace_diff(&rr.trace, &xt) {
+                        let opn = a.as_ref().or(b.as_ref()).map(|t| format!("{:02x}", t.op)).unwrap_or_default();
+                        // the instruction that *caused* the difference is the previous one
+                        let prev = if i > 0 { format!("{:02x}", rr.trace[i - 1].op) } else { "start".into() };
+                        rep.violation(format!("{pid}/reference/lockstep/{field}/after-{prev}/{fork}"), format!("{origin}: instruction #{i} (opcode {opn}): reference {:?} vs revm {:?}", a, b), cj());
+                        return false;
+                    }
+                }
+            }
             rep.add("reference_steps", rr.steps);
             for (op, n) in rr.op_hist.iter().enumerate() {
                 if *n > 0 {
